@@ -48,6 +48,12 @@ pub enum Outcome {
     BadPtype,
     /// a signalling PDU: encap_ext with the final mandatory extension 0x0081 (= its protocol type), fitting
     Signalling,
+    /// a signalling PDU through plain `encap` (protocol type 0x0081, no extension), fitting
+    SignallingPlain,
+    /// a PDU that is too long only because of the label it would be sent with (65534 - label bytes)
+    TooLongByLabel,
+    /// encap_ext with a protocol type below 0x0100 that is not the id of its last (mandatory) extension
+    BadFinalExt,
 }
 
 #[derive(Clone, Copy, Debug, PartialEq, Eq)]
@@ -65,6 +71,9 @@ pub enum Op {
     /// calls that are not supposed to touch the label policy: replace the CRC calculator by an equal one,
     /// read it back, ask whether re-use is enabled
     Accessors,
+    /// the receiving application takes buffers out of the decapsulator with its public `new_pdu` until it
+    /// reports that none is left, then provisions them all again
+    AppDrain,
 }
 
 pub fn op_str(op: &Op) -> String {
@@ -77,6 +86,7 @@ pub fn op_str(op: &Op) -> String {
         Op::Enable => "enable".into(),
         Op::EnableMax(n) => format!("enable_max({})", n),
         Op::Accessors => "set_crc_calculator/get_crc_calculator/is_enabled_re_use_label".into(),
+        Op::AppDrain => "receiver: new_pdu until empty, provision all again".into(),
     }
 }
 
@@ -103,6 +113,10 @@ pub fn alphabet_c15() -> Vec<Op> {
     v.push(Op::Enc { label: 7, outcome: Outcome::Fits, ext: false });
     v.push(Op::Enc { label: 8, outcome: Outcome::Fits, ext: false });
     v.push(Op::Enc { label: 2, outcome: Outcome::Signalling, ext: true });
+    v.push(Op::Enc { label: 1, outcome: Outcome::TooLongByLabel, ext: false });
+    v.push(Op::Enc { label: 2, outcome: Outcome::BadFinalExt, ext: true });
+    v.push(Op::Enc { label: 1, outcome: Outcome::SignallingPlain, ext: false });
+    v.push(Op::Enc { label: 4, outcome: Outcome::SignallingPlain, ext: false });
     v.extend([Op::Reset, Op::Disable, Op::Enable, Op::EnableMax(0), Op::EnableMax(1), Op::EnableMax(2), Op::EnableMax(255), Op::Accessors]);
     v
 }
@@ -132,6 +146,11 @@ pub fn alphabet_c04() -> Vec<Op> {
     v.push(Op::Enc { label: 8, outcome: Outcome::Fits, ext: false });
     v.push(Op::Enc { label: 1, outcome: Outcome::Signalling, ext: true });
     v.push(Op::Enc { label: 4, outcome: Outcome::Signalling, ext: true });
+    v.push(Op::Enc { label: 1, outcome: Outcome::TooLongByLabel, ext: false });
+    v.push(Op::Enc { label: 2, outcome: Outcome::TooLongByLabel, ext: false });
+    v.push(Op::Enc { label: 1, outcome: Outcome::BadFinalExt, ext: true });
+    v.push(Op::Enc { label: 2, outcome: Outcome::SignallingPlain, ext: false });
+    v.push(Op::AppDrain);
     v.extend([Op::Cont, Op::ContStale, Op::Reset, Op::Disable, Op::Enable, Op::EnableMax(0), Op::EnableMax(1), Op::EnableMax(2), Op::Accessors]);
     v
 }
@@ -182,6 +201,12 @@ pub struct Exec {
     /// of which: packets sent from a stale context / of a train spoiled by one (the sender mixed two PDUs
     /// on one fragment id; rejecting them is the receiver's duty)
     pub rx_benign: u64,
+    /// packets of PDUs that had to be delivered and were rejected all the same (a violation for C04; the
+    /// history stays conclusive for C01)
+    pub rx_unexpected: u64,
+    /// when > 0: the receiving application KEEPS every n-th delivered buffer (the pool drains; packets are then
+    /// refused for lack of storage, which is a legitimate reason for the two sides to lose step)
+    pub keep_every: u64,
     /// packets produced (for receiver-only stream mutation)
     pub record: Option<Vec<Vec<u8>>>,
 }
@@ -191,11 +216,16 @@ pub const M_C15: u32 = 2;
 
 impl Exec {
     pub fn new(with_rx: bool) -> Self {
+        Self::with_buffers(with_rx, 6)
+    }
+
+    /// receiver provisioned with `nbuf` storage buffers
+    pub fn with_buffers(with_rx: bool, nbuf: usize) -> Self {
         // the receiver uses the crate's signalisation table (knows 0x0081 / 0x0082 as final, data-less)
         let table = MandTable::signalisation();
         Exec {
             enc: Encapsulator::new(DefaultCrc {}),
-            dec: if with_rx { Some(plain_dec(4, 64, 6, 64, table.clone())) } else { None },
+            dec: if with_rx { Some(plain_dec(4, 64, nbuf, 64, table.clone())) } else { None },
             rx: RxSpec::new(table),
             enabled: true,
             max_n: 0,
@@ -212,6 +242,8 @@ impl Exec {
             failed_calls: 0,
             rx_errors: 0,
             rx_benign: 0,
+            rx_unexpected: 0,
+            keep_every: 0,
             record: None,
         }
     }
@@ -253,6 +285,21 @@ impl Exec {
                 self.enc.enable_re_use_label_with_max_consecutive(*n);
                 self.enabled = true;
                 self.max_n = *n;
+                true
+            }
+            Op::AppDrain => {
+                if let Some(d) = &mut self.dec {
+                    let mut taken = Vec::new();
+                    for _ in 0..64 {
+                        match guard(|| d.new_pdu()) {
+                            Ok(Ok(b)) => taken.push(b),
+                            _ => break,
+                        }
+                    }
+                    for b in taken {
+                        let _ = d.provision_storage(b);
+                    }
+                }
                 true
             }
             Op::Accessors => {
@@ -327,11 +374,18 @@ impl Exec {
                     Outcome::TooLong => (LONG_PDU.with(|p| p.clone()), 64, 0x0800),
                     Outcome::BadPtype => (small[..20].to_vec(), 64, 0x0200),
                     Outcome::Signalling => (small[..20].to_vec(), 64, 0x0081),
+                    Outcome::SignallingPlain => (small[..20].to_vec(), 64, 0x0081),
+                    Outcome::TooLongByLabel => (LONG_PDU.with(|p| p[..65534 - label_bytes(&l).len()].to_vec()), 64, 0x0800),
+                    Outcome::BadFinalExt => (small[..20].to_vec(), 64, 0x0043),
                 };
-                let frag_id = self.next_id % 4;
+                // fragment ids 0..=7 on a 4-slot receiver: ids 4 apart share a slot
+                let frag_id = self.next_id % 8;
                 let mut buf = vec![0u8; blen];
                 let meta = EncapMetadata::new(ptype, l);
-                let r = if *outcome == Outcome::Signalling {
+                let r = if *outcome == Outcome::BadFinalExt {
+                    let e = vec![Extension::new(0x0042, &[1, 2]).unwrap()];
+                    guard(|| self.enc.encap_ext(&pdu, frag_id, meta, &mut buf, e))
+                } else if *outcome == Outcome::Signalling {
                     let e = vec![Extension::new(0x0081, &[]).unwrap()];
                     guard(|| self.enc.encap_ext(&pdu, frag_id, meta, &mut buf, e))
                 } else if *ext {
@@ -404,6 +458,13 @@ impl Exec {
                 let must_deliver = l != Label::ReUse;
                 if let Some(c) = ctx {
                     // a new train on an id whose train is still pending supersedes it
+                    // a first fragment claims its slot: a train of ANOTHER id in that slot is dropped by the receiver
+                    for q in self.pending.iter_mut() {
+                        if q.ctx.frag_id() != frag_id && q.ctx.frag_id() % 4 == frag_id % 4 {
+                            q.spoiled = true;
+                            q.must_deliver = false;
+                        }
+                    }
                     let mut i = 0;
                     while i < self.pending.len() {
                         if self.pending[i].ctx.frag_id() == frag_id {
@@ -478,8 +539,11 @@ impl Exec {
                 }
             }
             Ok(Err(_)) => {
+                let no_storage = self.keep_every > 0 && matches!(&res, Ok(Err((dvb_gse_rust::gse_decap::DecapError::ErrorMemory(_), _))));
                 if p.spoiled {
                     self.rx_benign += 1;
+                } else if p.must_deliver && !no_storage {
+                    self.rx_unexpected += 1;
                 } else {
                     self.rx_errors += 1;
                 }
@@ -491,7 +555,11 @@ impl Exec {
         // give delivered storage back
         if let Ok(Ok((DecapStatus::CompletedPkt(b, _), _))) = res {
             let d = self.dec.as_mut().unwrap();
-            let _ = d.provision_storage(b);
+            if self.keep_every > 0 && self.deliveries % self.keep_every == 0 {
+                drop(b);
+            } else {
+                let _ = d.provision_storage(b);
+            }
         }
     }
 }
@@ -505,6 +573,7 @@ pub fn random_op(rng: &mut Rng, with_fail_kinds: bool) -> Op {
         4 | 5 => Op::Cont,
         6 => Op::ContStale,
         7 => Op::Accessors,
+        8 => Op::AppDrain,
         _ => {
             let label = [0u8, 0, 1, 2, 2, 3, 4, 5, 0, 2, 7, 8, 8][rng.below(13)];
             let outcome = match rng.below(if with_fail_kinds { 14 } else { 11 }) {
@@ -517,7 +586,8 @@ pub fn random_op(rng: &mut Rng, with_fail_kinds: bool) -> Op {
                 12 => Outcome::BadPtype,
                 _ => Outcome::TooLong,
             };
-            let outcome = if rng.chance(1, 25) { Outcome::Signalling } else { outcome };
+            let outcome = if rng.chance(1, 25) { [Outcome::Signalling, Outcome::SignallingPlain][rng.below(2)] } else { outcome };
+            let outcome = if with_fail_kinds && rng.chance(1, 20) { [Outcome::TooLongByLabel, Outcome::BadFinalExt][rng.below(2)] } else { outcome };
             Op::Enc { label, outcome, ext: rng.chance(1, 6) }
         }
     }
